@@ -538,6 +538,12 @@ class DataFormat(object):
             if self.line_delimiter is not None:
                 check_distinct(KEY_ESCAPE_CHARACTER, KEY_LINE_DELIMITER)
             check_distinct(KEY_ITEM_DELIMITER, KEY_LINE_DELIMITER)
+            if self.item_delimiter in ("\n", "\r"):
+                # Line feed and carriage return end a line no matter what the line delimiter is.
+                raise errors.InterfaceError(
+                    "'%s' is %s but must not be a line feed or carriage return"
+                    % (KEY_ITEM_DELIMITER, _compat.text_repr(self.item_delimiter))
+                )
             check_distinct(KEY_ITEM_DELIMITER, KEY_QUOTE_CHARACTER)
             check_distinct(KEY_LINE_DELIMITER, KEY_QUOTE_CHARACTER)
         self._is_valid = True
